@@ -18,6 +18,7 @@ import (
 
 	fancmd "github.com/markusressel/fan2go/cmd"
 	"github.com/markusressel/fan2go/internal/controller"
+	"github.com/markusressel/fan2go/internal/util"
 )
 
 // ---------------------------------------------------------------------------------------------
@@ -54,6 +55,34 @@ func ChildMain() {
 		must(json.Unmarshal([]byte(os.Getenv("VERIF_CHILD_ARGS")), &args))
 		os.Args = append([]string{"fan2go"}, args...)
 		fancmd.Execute()
+		os.Exit(0)
+	}
+	if os.Getenv("VERIF_CHILD") == "c19conc" {
+		// many monitors / control loops run commands at the same time (one goroutine each): healthy ones and ones that
+		// run into their deadline together; a runtime abort or panic ends this process with a non-zero status
+		var args []string
+		must(json.Unmarshal([]byte(os.Getenv("VERIF_CHILD_ARGS")), &args))
+		healthy, hanging := args[0], args[1]
+		// rounds with a common start: the commands of one round run into their (equal) deadlines at the same moment
+		for round := 0; round < 25; round++ {
+			var wg sync.WaitGroup
+			gate := make(chan struct{})
+			for g := 0; g < 16; g++ {
+				exe := hanging
+				if g%4 == 3 {
+					exe = healthy
+				}
+				wg.Add(1)
+				go func() {
+					defer wg.Done()
+					<-gate
+					_, _ = util.SafeCmdExecution(exe, nil, 100*time.Millisecond)
+				}()
+			}
+			close(gate)
+			wg.Wait()
+		}
+		fmt.Println("c19conc done")
 		os.Exit(0)
 	}
 	fmt.Fprintln(os.Stderr, "unknown VERIF_CHILD mode")
